@@ -34,6 +34,7 @@ def run(ctx):
     runs.append(["mixed", str(ctx.seed), "600" if ctx.thorough else "80"])
     runs.append(["wn", str(ctx.seed), "3000" if ctx.thorough else "400"])
     runs.append(["nest", str(ctx.seed), "400" if ctx.thorough else "60"])
+    runs.append(["push", str(ctx.seed), "60" if ctx.thorough else "10"])
     runs.append(["f9"])
     procs, paths, items, overlap = [], [], 0, 0
     for i, args in enumerate(runs):
